@@ -584,6 +584,240 @@ func (x *c12) outgoing() {
 	c.Floor("R12.1", "uses of the MSE wrapper as the connection in Dial", n, 1)
 }
 
+// selSubject returns the matcher for reads of "the selected method" denoted
+// by v (an SSA value, or a load of a local cell) and the kill predicate of
+// facts about it.
+func selSubject(v ssa.Value) (isSel func(*kit.Expr) bool, kill func(ssa.Instruction) bool) {
+	var cell *ssa.Alloc
+	if u, ok := v.(*ssa.UnOp); ok && u.Op == token.MUL {
+		cell, _ = u.X.(*ssa.Alloc)
+	}
+	if cell != nil {
+		return func(e *kit.Expr) bool {
+				e = e.Strip()
+				return e != nil && e.V != nil && loadOfCell(e.V, cell)
+			}, func(ins ssa.Instruction) bool {
+				return storesInto(ins, cell)
+			}
+	}
+	return func(e *kit.Expr) bool { e = e.Strip(); return e != nil && e.V == v }, nil
+}
+
+// helperResult: v (evaluated at `at` in fn) is result idx of a static call to
+// a module function with a body whose last result is an error that has been
+// tested nil on every path to `at`.
+func (x *c12) helperResult(fn *ssa.Function, v ssa.Value, at ssa.Instruction) (call *ssa.Call, idx int, ok bool) {
+	resolve := func(w ssa.Value) (*ssa.Call, int, bool) {
+		switch t := w.(type) {
+		case *ssa.Extract:
+			if c2, isCall := t.Tuple.(*ssa.Call); isCall {
+				return c2, t.Index, true
+			}
+		case *ssa.Call:
+			if t.Call.Signature().Results().Len() == 1 {
+				return t, 0, true
+			}
+		}
+		return nil, 0, false
+	}
+	call, idx, ok = resolve(v)
+	if !ok {
+		// a local cell that currently holds such a result
+		if u, isLd := v.(*ssa.UnOp); isLd && u.Op == token.MUL {
+			if cell, isA := u.X.(*ssa.Alloc); isA {
+				for _, s := range cellStores(fn, cell) {
+					if c2, i2, ok2 := resolve(s.St.Val); ok2 && s.Fn == fn && cellHolds(x.c, cell, s.St.Val).Before(at) {
+						call, idx, ok = c2, i2, true
+					}
+				}
+			}
+		}
+	}
+	if !ok || call.Parent() != fn {
+		return nil, 0, false
+	}
+	h := call.Call.StaticCallee()
+	if h == nil || h.Blocks == nil || h.Pkg == nil || !kit.InModule(h.Pkg.Pkg.Path()) {
+		return nil, 0, false
+	}
+	res := h.Signature.Results()
+	ei := res.Len() - 1
+	if ei < 0 || ei == idx || !types.Identical(res.At(ei).Type(), types.Universe.Lookup("error").Type()) {
+		return nil, 0, false
+	}
+	if !callSucceeded(x.c, call, ei).Before(at) {
+		return nil, 0, false
+	}
+	return call, idx, true
+}
+
+// selFactsDeep decides the three facts about the selected method sel at `at`
+// in fn: established in fn itself, or - sel being the result of a helper whose
+// error was tested nil - at every nil-error return of that helper about the
+// value it returns (the offered set is followed into the helper's parameter).
+func (x *c12) selFactsDeep(fn *ssa.Function, sel ssa.Value, isOffer func(*kit.Expr) bool, at ssa.Instruction, depth int) string {
+	isSel, kill := selSubject(sel)
+	miss := x.selFacts(fn, isSel, isOffer, kill, at)
+	if miss == "" || depth <= 0 {
+		return miss
+	}
+	call, idx, ok := x.helperResult(fn, sel, at)
+	if !ok {
+		return miss
+	}
+	h := call.Call.StaticCallee()
+	var offerP ssa.Value
+	for j, a := range call.Call.Args {
+		if j < len(h.Params) && isOffer(kit.Canon(a)) {
+			offerP = h.Params[j]
+		}
+	}
+	isOfferH := func(e *kit.Expr) bool { e = e.Strip(); return offerP != nil && e != nil && e.V == offerP }
+	rets := newErrFacts(x.c, h).successReturns(h.Signature.Results().Len() - 1)
+	if len(rets) == 0 {
+		return miss
+	}
+	for _, r := range rets {
+		if m := x.selFactsDeep(h, r.Results[idx], isOfferH, r, depth-1); m != "" {
+			return m
+		}
+	}
+	return ""
+}
+
+// cbCallsIn lists the calls of the function-typed parameter cb in fn.
+func cbCallsIn(fn *ssa.Function, cb *ssa.Parameter) []*ssa.Call {
+	var out []*ssa.Call
+	kit.Instrs(fn, func(ins ssa.Instruction) {
+		if call, ok := ins.(*ssa.Call); ok && call.Call.Value == ssa.Value(cb) {
+			out = append(out, call)
+		}
+	})
+	return out
+}
+
+// cbHandOvers lists the static calls in fn that pass cb on to a module
+// function with a body, with the receiving parameter.
+func cbHandOvers(fn *ssa.Function, cb *ssa.Parameter) (calls []*ssa.Call, params []*ssa.Parameter) {
+	kit.Instrs(fn, func(ins ssa.Instruction) {
+		call, ok := ins.(*ssa.Call)
+		if !ok {
+			return
+		}
+		h := call.Call.StaticCallee()
+		if h == nil || h.Blocks == nil || h.Pkg == nil || !kit.InModule(h.Pkg.Pkg.Path()) {
+			return
+		}
+		for j, a := range call.Call.Args {
+			if a == ssa.Value(cb) && j < len(h.Params) {
+				calls = append(calls, call)
+				params = append(params, h.Params[j])
+			}
+		}
+	})
+	return
+}
+
+func (x *c12) countCBCalls(fn *ssa.Function, cb *ssa.Parameter, depth int) int {
+	n := len(cbCallsIn(fn, cb))
+	if depth > 0 {
+		calls, params := cbHandOvers(fn, cb)
+		for i, call := range calls {
+			n += x.countCBCalls(call.Call.StaticCallee(), params[i], depth-1)
+		}
+	}
+	return n
+}
+
+// cbFacts decides, for the nil-error return `at` of fn, that the crypto_select
+// callback cb was called exactly once on the way and that its result is
+// non-zero, a single bit and one of the methods it was offered. The call and
+// the checks may sit in fn or in one helper that receives cb, returns the
+// callback's result and whose error was tested nil. Returns the SSA values
+// of fn that denote the callback's result.
+func (x *c12) cbFacts(fn *ssa.Function, cb *ssa.Parameter, at ssa.Instruction, depth int) (map[ssa.Value]bool, string) {
+	c := x.c
+	cbCalls := cbCallsIn(fn, cb)
+	hcalls, hparams := cbHandOvers(fn, cb)
+	switch {
+	case len(cbCalls) == 1 && len(hcalls) == 0:
+		call := cbCalls[0]
+		if !kit.Dominates(call, at) {
+			return nil, "can return a nil error without having called the crypto_select callback"
+		}
+		isSel := func(e *kit.Expr) bool { e = e.Strip(); return e != nil && e.V == ssa.Value(call) }
+		offered := call.Call.Args[0]
+		var ocell *ssa.Alloc
+		if u, ok := offered.(*ssa.UnOp); ok && u.Op == token.MUL {
+			ocell, _ = u.X.(*ssa.Alloc)
+		}
+		// "offer cell unchanged since the callback saw it"
+		var unchanged *kit.Flow
+		if ocell != nil {
+			unchanged = &kit.Flow{P: c.Prog, Fn: fn}
+			unchanged.Instr = func(ins ssa.Instruction, in bool) bool {
+				if ins == ssa.Instruction(call) {
+					return true
+				}
+				if in && storesInto(ins, ocell) {
+					return false
+				}
+				return in
+			}
+			unchanged.Solve()
+		}
+		isOffer := func(e *kit.Expr) bool {
+			e = e.Strip()
+			if e == nil || e.V == nil {
+				return false
+			}
+			if ocell != nil {
+				u, ok := e.V.(*ssa.UnOp)
+				return ok && loadOfCell(u, ocell) && unchanged.Before(u)
+			}
+			return e.V == offered
+		}
+		if miss := x.selFacts(fn, isSel, isOffer, nil, at); miss != "" {
+			return nil, "can return a nil error without the check " + miss + " on the callback's result"
+		}
+		return map[ssa.Value]bool{call: true}, ""
+	case len(cbCalls) == 0 && len(hcalls) == 1 && depth > 0:
+		hc := hcalls[0]
+		h := hc.Call.StaticCallee()
+		res := h.Signature.Results()
+		ei := res.Len() - 1
+		if ei < 1 || !types.Identical(res.At(ei).Type(), types.Universe.Lookup("error").Type()) {
+			return nil, "hands the crypto_select callback to " + h.Name() + ", which does not return (selected, error)"
+		}
+		if !kit.Dominates(hc, at) || !callSucceeded(c, hc, ei).Before(at) {
+			return nil, "can return a nil error without " + h.Name() + " (which calls the crypto_select callback) having returned a nil error"
+		}
+		rets := newErrFacts(c, h).successReturns(ei)
+		if len(rets) == 0 {
+			return nil, "hands the crypto_select callback to " + h.Name() + ", which has no nil-error return"
+		}
+		idx := -1
+		for _, r := range rets {
+			sels, miss := x.cbFacts(h, hparams[0], r, depth-1)
+			if miss != "" {
+				return nil, "relies on " + h.Name() + ", which " + miss
+			}
+			found := -1
+			for i, v := range r.Results {
+				if sels[v] {
+					found = i
+				}
+			}
+			if found < 0 || (idx >= 0 && idx != found) {
+				return nil, "relies on " + h.Name() + ", which does not return the callback's result"
+			}
+			idx = found
+		}
+		return resultOf(hc, idx), ""
+	}
+	return nil, "calls the crypto_select callback " + itoa(len(cbCalls)) + " times (and hands it to " + itoa(len(hcalls)) + " helpers): which result is in force cannot be shown"
+}
+
 // updatesCipherWith: call is updateCipher(sel) with sel matched by isSel, or a
 // call of a module helper that receives such a value as argument j and on
 // every returning path calls updateCipher with its parameter j.
@@ -671,22 +905,10 @@ func (x *c12) selection() {
 		for _, r := range succ {
 			key := k.key(fn, "return selected, nil")
 			sel := r.Results[0]
-			var cell *ssa.Alloc
-			if u, ok := sel.(*ssa.UnOp); ok && u.Op == token.MUL {
-				cell, _ = u.X.(*ssa.Alloc)
-			}
-			isSel := func(e *kit.Expr) bool {
-				e = stripE(e)
-				if cell != nil {
-					return e.V != nil && loadOfCell(e.V, cell)
-				}
-				return e.V == sel
-			}
-			var kill func(ssa.Instruction) bool
-			if cell != nil {
-				kill = func(ins ssa.Instruction) bool { return storesInto(ins, cell) }
-			}
-			if miss := x.selFacts(fn, isSel, isOffer, kill, r); miss != "" {
+			isSel, _ := selSubject(sel)
+			// the checks may sit in the function itself or in the helper that read
+			// and validated the peer's answer (its nil-error returns)
+			if miss := x.selFactsDeep(fn, sel, isOffer, r, 2); miss != "" {
 				c.Bad("R12.2", key, posOf(r), "HandshakeOutgoing can return a nil error without the check %s on the method selected by the peer", miss)
 				continue
 			}
@@ -717,62 +939,17 @@ func (x *c12) selection() {
 		if cb == nil {
 			panic(kit.AnchorError{Msg: "HandshakeIncoming: no func(CryptoMethod) CryptoMethod parameter (crypto_select callback)"})
 		}
-		var cbCalls []*ssa.Call
-		kit.Instrs(fn, func(ins ssa.Instruction) {
-			if call, ok := ins.(*ssa.Call); ok && call.Call.Value == ssa.Value(cb) {
-				cbCalls = append(cbCalls, call)
-			}
-		})
-		c.Floor("R12.2", "calls of the crypto_select callback in HandshakeIncoming", len(cbCalls), 1)
+		c.Floor("R12.2", "calls of the crypto_select callback in HandshakeIncoming (helpers that receive it included)", x.countCBCalls(fn, cb, 2), 1)
 		ef := newErrFacts(c, fn)
 		succ := ef.successReturns(0)
 		for _, r := range succ {
 			key := k.key(fn, "return nil")
-			if len(cbCalls) != 1 {
-				c.Bad("R12.2", key, posOf(r), "HandshakeIncoming calls the crypto_select callback %d times: which result is in force cannot be shown", len(cbCalls))
+			sels, miss := x.cbFacts(fn, cb, r, 2)
+			if miss != "" {
+				c.Bad("R12.2", key, posOf(r), "HandshakeIncoming %s", miss)
 				continue
 			}
-			call := cbCalls[0]
-			if !kit.Dominates(call, r) {
-				c.Bad("R12.2", key, posOf(r), "HandshakeIncoming can return a nil error without having called the crypto_select callback")
-				continue
-			}
-			isSel := func(e *kit.Expr) bool { return stripE(e).V == ssa.Value(call) }
-			offered := call.Call.Args[0]
-			var ocell *ssa.Alloc
-			if u, ok := offered.(*ssa.UnOp); ok && u.Op == token.MUL {
-				ocell, _ = u.X.(*ssa.Alloc)
-			}
-			// "offer cell unchanged since the callback saw it"
-			var unchanged *kit.Flow
-			if ocell != nil {
-				unchanged = &kit.Flow{P: c.Prog, Fn: fn}
-				unchanged.Instr = func(ins ssa.Instruction, in bool) bool {
-					if ins == ssa.Instruction(call) {
-						return true
-					}
-					if in && storesInto(ins, ocell) {
-						return false
-					}
-					return in
-				}
-				unchanged.Solve()
-			}
-			isOffer := func(e *kit.Expr) bool {
-				e = stripE(e)
-				if e.V == nil {
-					return false
-				}
-				if ocell != nil {
-					u, ok := e.V.(*ssa.UnOp)
-					return ok && loadOfCell(u, ocell) && unchanged.Before(u)
-				}
-				return e.V == offered
-			}
-			if miss := x.selFacts(fn, isSel, isOffer, nil, r); miss != "" {
-				c.Bad("R12.2", key, posOf(r), "HandshakeIncoming can return a nil error without the check %s on the callback's result", miss)
-				continue
-			}
+			isSel := func(e *kit.Expr) bool { e = stripE(e); return e.V != nil && sels[e.V] }
 			okUpd := false
 			kit.Instrs(fn, func(ins ssa.Instruction) {
 				if uc, ok := ins.(*ssa.Call); ok && x.updatesCipherWith(uc, updateCipher, isSel) && kit.Dominates(uc, r) {
